@@ -51,6 +51,10 @@ def _p_ab_icase(s):
     return len(core) == 2 and core[0] in "aA" and core[1] in "bB"
 
 
+def _p_ab_exact(s):
+    return s in ("ab", "ab\n")
+
+
 def _p_not_empty(s):
     # ^.*[^ ].*$ : A c B T with A, B free of newlines, c any character but a space, T empty or one final newline
     for i, c in enumerate(s):
@@ -86,6 +90,10 @@ PATTERNS = {
     "dot-plus": ("new", r".+", 0, _p_dot_plus, "unanchored"),
     "dotall-plus": ("new", r"(?s).+", 0, _p_dotall_plus, "multi-line"),
     "ab-icase-compiled": ("compiled", r"^ab$", re.IGNORECASE, _p_ab_icase, "anchored"),
+    # one compiled pattern per flag that changes the language (the given Pattern object, flags included, must decide)
+    "ab-verbose-compiled": ("compiled", r"^ a b $  # two letters", re.VERBOSE, _p_ab_exact, "anchored"),
+    "dotall-plus-compiled": ("compiled", r"..*", re.DOTALL, _p_dotall_plus, "multi-line"),
+    "multiline-b-compiled": ("compiled", r"^b$", re.MULTILINE, _p_ml_b, "multi-line"),
     "a-or-ab": ("new", r"a|ab$", 0, _p_a_or_ab_end, "unanchored"),
     "NotEmptyStr": ("predef", r"^.*[^ ].*$", 0, _p_not_empty, "anchored"),
     "Email": ("predef", r"^[^@ ]+@[^@ ]+\.[^@ ]+$", 0, _p_email, "anchored"),
@@ -226,7 +234,113 @@ def run_pattern(arg):
     return res
 
 
+# ------------------------------------------------------------------------------------------------------
+# creation histories: the same pattern text given twice under one name, as text / compiled / compiled with a flag.
+# The type returned by the second call must follow the regex given to the second call (a refusal to create it,
+# ValueError, is not judged). Every history has its own pattern text (no-op groups appended), so the global type
+# registry of a worker process holds nothing about it beforehand and a fresh process reproduces it.
+
+
+def _p_dot_b(s):
+    return len(s) >= 2 and s[0] != "\n" and s[1] == "b"
+
+
+def _p_dotall_b(s):
+    return len(s) >= 2 and s[1] == "b"
+
+
+HIST_BASES = {
+    "ab": (r"^ab$", re.IGNORECASE, _p_ab_exact, _p_ab_icase),
+    "dot-b": (r".b", re.DOTALL, _p_dot_b, _p_dotall_b),
+}
+HIST_FORMS = ["text", "compiled", "compiled-flag"]
+HISTORIES = [(b, f1, f2) for b in HIST_BASES for f1 in HIST_FORMS for f2 in HIST_FORMS]
+
+
+def _hist_regex(hid, which, pad=0):
+    base, forms = HISTORIES[hid][0], HISTORIES[hid][1:]
+    text, flag, p_plain, p_flag = HIST_BASES[base]
+    k = hid + 1 + pad
+    text = text[:-1] + "(?:)" * k + "$" if text.endswith("$") else text + "(?:)" * k
+    form = forms[which]
+    flags = flag if form == "compiled-flag" else 0
+    return (text if form == "text" else re.compile(text, flags)), re.compile(text, flags), (p_flag if flags else p_plain)
+
+
+def observe_history(hid, s):
+    import jsonargparse.typing as JT
+    from mc.checks.c20_num import call_direct
+
+    name = "C20_hist_%d" % hid
+    given1, _, _ = _hist_regex(hid, 0)
+    given2, ref, pred = _hist_regex(hid, 1)
+    want = bool(pred(s))
+    if want != (ref.match(s) is not None):
+        from mc.core import HarnessError
+
+        raise HarnessError(f"C20 string oracle: hand-written language of history {HISTORIES[hid]} disagrees with re.match on {s!r}")
+    JT.restricted_string_type(name, given1)
+    try:
+        T2 = JT.restricted_string_type(name, given2)
+    except ValueError:
+        return want, "refused", None
+
+    def judge(got):
+        if got[0] == "escape":
+            return "escape-" + got[1]
+        if want:
+            if got[0] == "reject":
+                return "rejected"
+            return None if isinstance(got[1], str) and str(got[1]) == s else "wrong-value"
+        return "accepted" if got[0] == "ok" else None
+
+    got = call_direct(T2, s)
+    verdict = judge(got)
+    if verdict is not None:
+        # control: the same regex given once, under a name and a pattern text of its own; the same deviation there is
+        # not a matter of the history (root cause reported by the pattern product under str:direct)
+        control = JT.restricted_string_type(name + "_once", _hist_regex(hid, 1, pad=len(HISTORIES))[0])
+        if judge(call_direct(control, s)) == verdict:
+            verdict = None
+    return want, verdict, got
+
+
+def history_signature(hid, s, want, verdict, got):
+    base, f1, f2 = HISTORIES[hid]
+    flags_differ = (f1 == "compiled-flag") != (f2 == "compiled-flag")
+    shape = "same-text-other-flags" if flags_differ else ("same-regex-other-form" if f1 != f2 else "same-regex")
+    detail = "restricted_string_type(name, <%s>) then (same name, <%s>) of /%s/: second type on %r: oracle %s, observed %r" % (
+        f1, f2, HIST_BASES[base][0], s, "accept" if want else "reject", got)
+    return "str:recreate:%s:%s" % (verdict, shape), detail
+
+
+def run_history(arg):
+    hid, tier = arg
+    res = {"devs": [], "evals": 0, "ops": 0, "accepted": 0, "rejected": 0, "inputs": 0, "nontrivial": 0,
+           "refused": 0, "hist": 1}
+    for s in strings("quick"):
+        want, verdict, got = observe_history(hid, s)
+        res["inputs"] += 1
+        res["evals"] += 1
+        res["ops"] += 3
+        res["accepted" if want else "rejected"] += 1
+        if want:
+            res["nontrivial"] += 1
+        if verdict == "refused":
+            res["refused"] += 1
+        elif verdict is not None:
+            sig, detail = history_signature(hid, s, want, verdict, got)
+            res["devs"].append((sig, {"part": "str", "history": hid, "value": s}, detail))
+    return res
+
+
 def run_case(case):
+    if "history" in case:
+        want, verdict, got = observe_history(case["history"], case["value"])
+        if verdict in (None, "refused"):
+            return []
+        sig, detail = history_signature(case["history"], case["value"], want, verdict, got)
+        return [{"signature": sig, "detail": detail}]
     import jsonargparse as J
     from mc.checks.c20_num import build_parser
 
